@@ -81,6 +81,9 @@ def _with_playback(crate, hf, text):
     if os.path.isdir(d):
         for fn in sorted(os.listdir(d)):
             if fn.startswith(hf[:-3] + "__") and fn.endswith(".rs"):
+                # a replay kept from an earlier run may name a harness that no longer exists
+                if not re.search(r"\bfn %s\s*\(" % re.escape(fn[len(hf) - 3 + 2:-3]), text):
+                    continue
                 tests += open(os.path.join(d, fn)).read() + "\n"
     return text.replace("// @PLAYBACK@", tests)
 
